@@ -66,8 +66,11 @@ def run(pid, tier):
         jobs.append((c, dict(horizon=H, any_sample=True, free=False, invariants=any_inv + ["EmitSample"],
                              props=props)))
     if pid in ("C01", "C12"):    # every predictable rule with values in the admissible range
+        seen_free = set()
         for c in cfgs:
-            if c["estim"] in ("fixed", "fixedbet") and c["ro"] and c["u"] in (1, seqtest.F(9, 8)):
+            fkey = (c["method"], c["N"] == 0, c["u"], c["t"])       # a free rule ignores eta / lam: one run per kind
+            if c["estim"] in ("fixed", "fixedbet") and c["ro"] and c["u"] in (1, seqtest.F(9, 8)) and fkey not in seen_free:
+                seen_free.add(fkey)
                 fc = dict(c, name=c["name"].replace("fixed", "free"))
                 H = 4 if tier == "quick" else 5
                 if fc["N"]:
@@ -78,7 +81,8 @@ def run(pid, tier):
         c, kw = job
         return job, seqtest.run_mc(c, workers=2, **kw)
     samples_by_key = {}
-    with ThreadPoolExecutor(max_workers=8) as ex:
+    jobs.sort(key=lambda j: (not j[1]["free"], j[0]["N"] != 0))       # the long runs (free rules, IID) start first
+    with ThreadPoolExecutor(max_workers=12) as ex:
         for (c, kw), (failed, res, results, info) in ex.map(do, jobs):
             mode = ("any" if kw["any_sample"] else "null") + ("-free" if kw["free"] else "")
             for r in results:
